@@ -49,6 +49,22 @@ func (f *Frame) call(ins ssa.Instruction, c *ssa.CallCommon, st *State) (Value, 
 		if fv.Fn != nil {
 			return f.callStatic(ins, fv.Fn, fv.Bind, args, st), true
 		}
+		// a contract on the struct field the function value is loaded from (e.g. a stored context.CancelFunc)
+		if ld, ok := c.Value.(*ssa.UnOp); ok {
+			if fa, ok := ld.X.(*ssa.FieldAddr); ok {
+				if pt, ok := fa.X.Type().Underlying().(*types.Pointer); ok {
+					if n, ok := pt.Elem().(*types.Named); ok && n.Obj().Pkg() != nil {
+						fname := pt.Elem().Underlying().(*types.Struct).Field(fa.Field).Name()
+						if fc := f.u.eng.cs.Funcs[n.Obj().Pkg().Path()+"::field."+n.Obj().Name()+"."+fname]; fc != nil && fc.Pure && len(fc.Modifies) == 0 {
+							f.u.usedExterns["function value in field "+n.Obj().Name()+"."+fname+" (assumed pure)"] = true
+							results := f.freshResults("r_"+fname, resT, st)
+							f.assumeWF(results, st)
+							return f.packResults(results, resT), true
+						}
+					}
+				}
+			}
+		}
 		// a contract on the named function type of the callee value (e.g. config getters)
 		if n, ok := c.Value.Type().(*types.Named); ok && n.Obj().Pkg() != nil {
 			if fc := f.u.eng.cs.Funcs[n.Obj().Pkg().Path()+"::type."+n.Obj().Name()]; fc != nil && fc.Pure && len(fc.Modifies) == 0 {
@@ -506,12 +522,47 @@ func (f *Frame) callUnknown(ins ssa.Instruction, name string, c *ssa.CallCommon,
 			f.havocRegion(st, r)
 		}
 	}
-	// contents of slices passed to the callee may change
-	for _, a := range args {
-		if a.T.Sort == SSlice && a.Ty != nil {
-			if sl, ok := a.Ty.Underlying().(*types.Slice); ok {
+	// contents of slices passed to the callee may change; objects passed by pointer may be written
+	// (their fields: all objects of that struct type, since the callee may follow links)
+	var argTypes []types.Type
+	if ci, ok := ins.(ssa.CallInstruction); ok {
+		for _, a := range ci.Common().Args {
+			argTypes = append(argTypes, a.Type())
+		}
+	}
+	for i, a := range args {
+		ty := a.Ty
+		if i < len(argTypes) {
+			ty = argTypes[i]
+		}
+		if ty == nil {
+			continue
+		}
+		if a.T.Sort == SSlice {
+			if sl, ok := ty.Underlying().(*types.Slice); ok {
 				f.havocRow(st, sl.Elem(), sBase(a.T))
 			}
+			continue
+		}
+		pt, ok := ty.Underlying().(*types.Pointer)
+		if !ok {
+			continue
+		}
+		if _, isStruct := pt.Elem().Underlying().(*types.Struct); isStruct {
+			if fc := u.eng.contractOfNameLess(name); fc {
+				continue
+			}
+			for _, r := range f.structRegions(pt.Elem()) {
+				if !u.eng.initOnlyGlobals()[r] {
+					f.havocRegion(st, r)
+				}
+			}
+			continue
+		}
+		if ad := f.addrOf(a, pt.Elem()); ad != nil && ad.Kind == aCell {
+			nv := u.sc.fresh("hv", ad.Sort)
+			f.store(st, ad, nv)
+			u.assume(st.reach, u.wf(nv, pt.Elem(), st.wm))
 		}
 	}
 	nwm := u.sc.fresh("wm", SInt)
@@ -1225,6 +1276,11 @@ func (f *Frame) siteHook(kind string, ins ssa.Instruction, st *State, extra map[
 			}
 			return base(name)
 		}
+		if len(s.Asserts) > 0 {
+			// vacuity: the site must be reachable under all assumptions made so far
+			f.u.obls = append(f.u.obls, &Obligation{Name: fmt.Sprintf("%s/vacuity/at[%s]/%d", f.u.name, s.Pattern, f.siteHit[s]-1), Kind: "canary",
+				Clause: "site " + s.Pattern + " is reachable", Guard: st.reach, Cond: tFalse, NAsserts: len(f.u.asserts), unit: f.u, Canary: true})
+		}
 		for _, act := range s.Order {
 		switch act.Kind {
 		case "assert":
@@ -1658,3 +1714,6 @@ func (f *Frame) runningDeferred() bool {
 	}
 	return false
 }
+
+// contractOfNameLess is a placeholder hook (always false): unknown callees have no contract.
+func (e *Engine) contractOfNameLess(name string) bool { return false }
